@@ -88,7 +88,8 @@ func MergeNodes(left, right Node, document *Document) (Node, error) {
 			}
 		}
 
-		r.AddNode(child)
+		// The result must not share any nodes with the inputs.
+		r.AddNode(DeepCopy(child, document))
 	next:
 	}
 
